@@ -183,7 +183,7 @@ func raceRound(o *opts, r *rng, round, width int) int {
 // moment to finish)
 func cacheGoroutines() int {
 	n := 0
-	for try := 0; try < 20; try++ {
+	for try := 0; try < 80; try++ {
 		buf := make([]byte, 1<<22)
 		buf = buf[:runtime.Stack(buf, true)]
 		n = 0
@@ -195,7 +195,7 @@ func cacheGoroutines() int {
 		if n == 0 {
 			return 0
 		}
-		time.Sleep(25 * time.Millisecond)
+		time.Sleep(50 * time.Millisecond)
 	}
 	return n
 }
